@@ -15,6 +15,7 @@ from .. import tlc, trace
 from .. import expr_pool as P
 from .. import expr_terms as T
 from ..core import Machinery
+from ..expr_pool import run_tlc
 
 LEVEL = "model_checking"
 META = {
@@ -56,11 +57,11 @@ def run(chk, replay=None):
     else:
         cfg = P.pool_cfg(max_ops=1)
     with ThreadPoolExecutor(max_workers=4) as ex:
-        f_main = ex.submit(tlc.run, "ExprOps_MC", cfg, workers=3, fast_start=False, timeout=1500)
+        f_main = ex.submit(run_tlc, "ExprOps_MC", cfg, workers=3, fast_start=False, timeout=1500)
         # vacuity: every action must have been taken (coverage run on the smaller graph configuration)
-        f_cov = ex.submit(tlc.run, "ExprOps_MC", P.pool_cfg(init="PoolGraphInit", max_ops=1, full_quantification=(tier == "thorough")), workers=1, coverage=True, timeout=600)
+        f_cov = ex.submit(run_tlc, "ExprOps_MC", P.pool_cfg(init="PoolGraphInit", max_ops=1, full_quantification=(tier == "thorough")), workers=1, coverage=True, timeout=600)
         # sensitivity: the named deviations must break the laws in the model
-        f_dev = {dev: ex.submit(tlc.run, "ExprOps_MC", P.pool_cfg(init="PoolGraphInit", max_ops=1, dev=dev), workers=1, timeout=600)
+        f_dev = {dev: ex.submit(run_tlc, "ExprOps_MC", P.pool_cfg(init="PoolGraphInit", max_ops=1, dev=dev), workers=1, timeout=600)
                  for dev in ("DevBoundIndexSubs", "DevDropUnusedIndex")}
         res, cov = f_main.result(), f_cov.result()
         devres = {k: f.result() for k, f in f_dev.items()}
@@ -85,7 +86,7 @@ def run(chk, replay=None):
     if replay and replay.get("case"):
         print("replay case:", replay["case"])
     t0 = time.time()
-    nsim, depth = (1100, 9) if tier == "thorough" else (200, 8)
+    nsim, depth = (1100, 9) if tier == "thorough" else (160, 8)
     sim_small = P.pool_cfg(init="PoolInit", ctxs="PoolCtxs", max_ops=6, max_depth=6, nest_anytime=True, check=False)
     behs = P.simulate_parallel("ExprOps_MC", sim_small, num=nsim, depth=depth, seed=chk.seed + 1, jobs=5)
     sim_big = P.pool_cfg(init="F2", ctxs="PoolCtxs", max_ops=6, max_depth=6, nest_anytime=True, leafs=("x", "y"),
@@ -198,7 +199,7 @@ def graph_replay(chk, rep, tier):
     path = os.path.join(d, "g.dot")
     try:
         cfg = P.pool_cfg(init="PoolGraphInit", maps="PoolGraphMaps", pairs="PoolGraphPairs", vary=False,
-                         max_ops=2 if tier == "thorough" else 2, check=False)
+                         max_ops=2, max_idx=2 if tier == "thorough" else 1, check=False)
         res = tlc.run("ExprOps_MC", cfg, workers=1, dump_dot=path, timeout=900)
         text = open(path).read()
     finally:
